@@ -322,7 +322,9 @@ impl Property for C03 {
                 self.run_project(is_xml, &full, &bdl, &f.file_name().unwrap().to_string_lossy(), &mut rng, obs);
             }
             _ => {
-                let b = gen_building(&mut rng, &BuildCfg::full());
+                // a third of the projects in legacy form (attributes with a documented default left out: a ROOF placed by
+                // its polygon without TILT is horizontal, other elements vertical)
+                let b = gen_building(&mut rng, &BuildCfg { legacy_absent: case.index % 3 == 2, ..BuildCfg::full() });
                 let lay = if rng.chance(0.5) { Layout::hulc() } else { Layout::random(&mut rng) };
                 let bdl = print_blocks(&mut rng, &b.blocks(), &lay);
                 let full = b.ctehexml(&bdl, "");
